@@ -50,63 +50,9 @@ def run(ctx, rep):
                 if p[0] == "var" and b[0] == "macro" and b[1] == "write" and len(b[2]) >= 2 and b[2][1][0] == "str":
                     t[p[1]] = (b[2][1][1], ln, len(b[2]))
         names[trait] = t
-    # ---- reader
-    rm = m1("read_options", "BinRead")
-    read_rows = []
-    pred_ok = False
-    if rm:
-        mt = None
-        for m in find_nodes(rm[1]["body"], lambda n: n.get("k") == "Match"):
-            if m["e"].get("k") == "Tuple":
-                mt = m
-        if mt is None:
-            rep.fail("R13.0", "read:table", "reader match over (bytes, is_builtin) not found", ctx.loc(rm[0], rm[1]["ln"]))
-        else:
-            scr = [x.get("path") for x in mt["e"]["elems"]]
-            rep.check("R13.1", "read:scrutinee", scr == ["bytes", "is_builtin"], "reader must match on (bytes, is_builtin): %s" % scr, ctx.loc(rm[0], mt["ln"]), nontrivial=False)
-            read_rows = tables.rows(mt["arms"])
-        # predicate: let is_builtin = bytes[0..=2].iter().all(|c| c.is_ascii_alphanumeric()) && bytes[3] == 0;
-        lets = find_nodes(rm[1]["body"], lambda n: n.get("k") == "Let" and n["pat"].get("name") == "is_builtin")
-        if len(lets) == 1 and lets[0]["init"]:
-            e = lets[0]["init"]
-            if e.get("k") == "Binary" and e["op"] == "&&":
-                l, r = e["lhs"], e["rhs"]
-                lok = l.get("k") == "MethodCall" and l["method"] == "all" and find_nodes(l, lambda n: n.get("k") == "MethodCall" and n["method"] == "is_ascii_alphanumeric") \
-                    and find_nodes(l, lambda n: n.get("k") == "Range" and n["inclusive"] and (n["lo"] or {}).get("v") == "0" and (n["hi"] or {}).get("v") == "2")
-                rok = r.get("k") == "Binary" and r["op"] == "==" and r["lhs"].get("k") == "Index" and r["lhs"]["index"].get("v") == "3" and r["rhs"].get("v") == "0"
-                pred_ok = bool(lok) and bool(rok)
-        rep.check("R13.1", "read:predicate", pred_ok, "built-in test must be `bytes[0..=2] all ascii alphanumeric && bytes[3] == 0`", ctx.loc(rm[0], rm[1]["ln"]),
-                  sample={"predicate_recognised": pred_ok})
-    read = {}
-    catch_builtin_err = catch_mod = unknown_row = False
-    seen = {}
-    for (p, b, g, ln) in read_rows:
-        if p[0] != "tuple" or len(p[1]) != 2:
-            rep.fail("R13.1", "read:row-shape", "unexpected reader row %s" % (p,), ctx.loc(rm[0], ln))
-            continue
-        pb, pf = p[1]
-        bs = tables.bytes_of(pb) if pb[0] == "seq" else None
-        var = b[2][0][1].split("::")[-1] if b[0] == "call" and b[1] == "Ok" and b[2] and b[2][0][0] == "path" else None
-        if bs is not None:
-            rep.check("R13.1", "read:%s:distinct" % var, bs not in seen, "read key %r appears twice" % bs, ctx.loc(rm[0], ln), nontrivial=False)
-            seen[bs] = var
-            if bs == b"\0\0\0\0":
-                unknown_row = var == "Unknown" and pf[0] == "wild"
-                # it must precede every row it could shadow: first row
-                continue
-            ok_key = len(bs) == 4 and bs[3] == 0 and all(chr(c).isalnum() and c < 128 for c in bs[:3])
-            rep.check("R13.1", "read:%s:key" % var, ok_key and pf == ("lit", True),
-                      "read key %r for %s must be 3 ASCII alphanumerics + NUL guarded by is_builtin = true" % (bs, var), ctx.loc(rm[0], ln),
-                      sample={"variant": var, "key": list(bs)})
-            read.setdefault(var, []).append(bs)
-        elif pb[0] == "wild" and pf == ("lit", True):
-            catch_builtin_err = b[0] == "call" and b[1] == "Err"
-        elif pb[0] == "wild" and pf == ("lit", False):
-            catch_mod = b == ("call", "Ok", (("call", "Vehicle::Mod", (("call", "u32::from_le_bytes", (("path", "bytes"),)),)),))
-    loc_r = ctx.loc(rm[0], rm[1]["ln"]) if rm else None
-    rep.check("R13.1", "read:unknown", unknown_row, "[0,0,0,0] must decode to Vehicle::Unknown", loc_r)
-    rep.check("R13.1", "read:builtin-catch-all", catch_builtin_err, "an unrecognised built-in-shaped name must be an error", loc_r)
-    rep.check("R13.2", "read:mod", catch_mod, "anything else must decode as Vehicle::Mod(u32::from_le_bytes(bytes))", loc_r)
+    # ---- reader: decision table from MIR, evaluated over a domain of inputs (c13_mir)
+    from props import c13_mir
+    c13_mir.run(ctx, rep, {v: names["Display"][v][0] for v in builtins if v in names["Display"]})
     for v in builtins:
         d = names["Display"].get(v)
         g = names["Debug"].get(v)
@@ -116,16 +62,19 @@ def run(ctx, rep):
         rep.check("R13.1", "%s:write=display" % v, d is not None and wb == d[0].encode() + b"\0" and d[2] == 2,
                   "write(%s) = %r but Display prints %r" % (v, wb, d[0] if d else None), loc, sample={"variant": v, "wire": list(wb) if wb else None, "display": d[0] if d else None})
         rep.check("R13.1", "%s:debug=display" % v, g is not None and d is not None and g[0] == d[0], "Debug %r vs Display %r" % (g[0] if g else None, d[0] if d else None), loc, nontrivial=False)
-        rep.check("R13.1", "%s:read-inverse" % v, read.get(v) == [wb], "read rows for %s: %r, written form %r" % (v, read.get(v), wb), loc)
-    extra = set(read) - set(builtins)
-    rep.check("R13.1", "read:no-foreign-rows", not extra, "reader has rows for non built-in variants %s" % sorted(extra), loc_r, nontrivial=False)
     # Mod / Unknown writer rows
     wm_mod = write.get("Mod")
     rep.check("R13.2", "write:mod", wm_mod is not None and wm_mod[0] == ("path", "vehmod"), "Mod must be written as its u32 (found %s)" % (wm_mod[0] if wm_mod else None,),
               ctx.loc(wm[0], wm_mod[1]) if wm_mod else None)
     wu = write.get("Unknown")
-    rep.check("R13.1", "write:unknown", wu is not None and tables.bytes_of(wu[0]) == b"\0\0\0\0", "Unknown must be written as four zero bytes", ctx.loc(wm[0], wu[1]) if wu else None)
-    rep.floor("R13.1", 3 * 20 + 20)
+    wub = tables.bytes_of(wu[0]) if wu else None
+    if wu and wub is None and wu[0][0] == "path":
+        # a named constant: resolve it through the AST (`const UNKNOWN_WIRE_BYTES: [u8; 4] = [0, 0, 0, 0]`)
+        cs = ctx.ast.const(wu[0][1].split("::")[-1], crate="insim_core")
+        if len(cs) == 1 and cs[0][3]["value"].get("elems") is not None and all(e.get("t") == "int" for e in cs[0][3]["value"]["elems"]):
+            wub = bytes(int(e["v"]) for e in cs[0][3]["value"]["elems"])
+    rep.check("R13.1", "write:unknown", wub == b"\0\0\0\0", "Unknown must be written as four zero bytes (found %r)" % (wub,), ctx.loc(wm[0], wu[1]) if wu else None)
+    rep.floor("R13.1", 3 * 20)
     # ---- R13.3 PlcAllowedCarsSet: same constant per car in both directions
     fb = ctx.ast.method("PlcAllowedCarsSet", "from_bits_truncate", crate="insim")
     bt = ctx.ast.method("PlcAllowedCarsSet", "bits", crate="insim")
